@@ -286,7 +286,7 @@ func (s *sys) Ops() []string {
 	}
 	ops = append(ops, "Mkdir /f", "CreateRaw /f", "CreateRaw /a/f", "CreatePB /f", "Create /a", "Create /a/x")
 	if thorough {
-		ops = append(ops, "CreateRaw /a/x/f", "CreateRaw /b/x/f", "MkdirF /a", "MkdirF /a/x", "CreatePB /a/f")
+		ops = append(ops, "CreateRaw /a/x/f", "CreateRaw /b/x/f", "MkdirF /a", "MkdirF /a/x", "MkdirPN /a/x", "MkdirPN /b/x", "CreatePB /a/f")
 	}
 	pres := s.present(allPaths)
 	absent := firstAbsent(s, allPaths)
@@ -398,9 +398,11 @@ func (s *sys) do(op string) (string, *eng.Violation) {
 	s.lastFeat = s.cfgFeat()
 	s.mvSrc = ""
 	switch f[0] {
-	case "Mkdir", "MkdirP", "MkdirF":
+	case "Mkdir", "MkdirP", "MkdirF", "MkdirPN":
+		// Mkdir: plain; MkdirP: parents + flush (what `ipfs files mkdir -p` does);
+		// MkdirF: plain + flush; MkdirPN: parents, no flush
 		p := f[1]
-		parents := f[0] == "MkdirP"
+		parents := f[0] == "MkdirP" || f[0] == "MkdirPN"
 		c := comps(p)
 		wantOK := true
 		cur := s.model
@@ -424,7 +426,7 @@ func (s *sys) do(op string) (string, *eng.Violation) {
 			}
 		}
 		s.lastFeat = append(s.lastFeat, "parents", fmt.Sprint(parents), "target", kindOf(s.model.get(p)))
-		err := mfs.Mkdir(s.rt, p, mfs.MkdirOpts{Mkparents: parents, Flush: f[0] == "MkdirF"})
+		err := mfs.Mkdir(s.rt, p, mfs.MkdirOpts{Mkparents: parents, Flush: f[0] == "MkdirF" || f[0] == "MkdirP"})
 		if v := expectClass(op, wantOK, err, s.lastFeat); v != nil {
 			return cls(err), v
 		}
@@ -983,9 +985,14 @@ func main() {
 		r.Rule("BFS over sequences of Mkdir/Mkdir -p/PutNode(create)/open-write-close/open-truncate-close/Mv/Unlink/Chmod/Touch/FlushPath/root Flush/Lookup on a fresh mfs.Root (4 configurations: publish function set or nil x default or tiny (MaxLinks=2) sharding); successor = replay on a fresh root + 1 op; state = model tree + entriesCache contents and basic/HAMT kind of every cached directory; after every transition (a) the tree shown by ListNames/List/Lookup/Open+Read/Size/Mode/ModTime and (b) the root DAG after Flush read through uio directories + DagReader are compared with the model tree incl. contents, mode, mtime; a failed op must leave both unchanged; non-trivial = path of >= 2 operations")
 		r.Assume("in-memory DAG service (map datastore, offline exchange) is correct; UnixFS readers (uio.Directory enumeration, DagReader) are correct (C08/C09/C15)")
 		r.Assume("one operation at a time per root (concurrency is C20); file descriptors are opened, used and closed within one operation")
+		n, bounds := 0, []string{}
 		for i, sp := range specs(r) {
 			eng.ExploreSeq(r, sp)
 			r.Set(fmt.Sprintf("search_%d", i), map[string]any{"configs": sp.Configs, "depth": sp.Depth})
+			n += len(sp.Configs)
+			bounds = append(bounds, fmt.Sprintf("%d configs to depth %d", len(sp.Configs), sp.Depth))
 		}
+		r.Set("configs", n)
+		r.Set("depth_bound", strings.Join(bounds, "; "))
 	}, func(r *eng.Run, raw json.RawMessage) { eng.ReplaySeq(r, specs(r)[0], raw) })
 }
